@@ -4,7 +4,8 @@ stdin : JSON {'workdir': path, 'jobs': [{'id': str, 'doc': DOC, 'raw': bool, 'op
 stdout: JSON {'pydl_file': ..., 'results': [{'id', 'init': {...}, 'steps': [STEP, ...]}]}
 
 DOC as in c01_impl.  The history starts from write_ndarray_to_yanny(<dir>/f0.par, ...) (raw: the file is then
-opened with yanny(path, raw=True)).  The clock used by yanny.append() is patched: every op carries its own
+opened with yanny(path, raw=True)); a job with a 'text' field starts from that text written to f0.par and read with
+yanny(path, raw=raw) (hand-written files: char columns of undeclared length).  The clock used by yanny.append() is patched: every op carries its own
 'clock' text, so the '# Appended by yanny.py at <clock>.' line is deterministic.
 
 OP  {'op': 'write', 'path': name|None, 'comments': [str]}
@@ -124,16 +125,22 @@ def run_history(job, workdir):
             os.remove(os.path.join(dirname, f))
     os.makedirs(dirname, exist_ok=True)
     res = {'id': job['id'], 'steps': []}
-    arrays = [build_array(t) for t in doc['tables']]
+    arrays = [build_array(t) for t in doc['tables']] if job.get('text') is None else []
     names = [t['name'] for t in doc['tables']]
     hdr = OrderedDict((k, v) for k, v in doc['hdr']) if doc.get('hdr') is not None else None
     enums = OrderedDict((e[0], (e[1], list(e[2]))) for e in doc['enums']) if doc.get('enums') is not None else None
     p0 = os.path.join(dirname, 'f0.par')
     try:
-        par = write_ndarray_to_yanny(p0, tuple(arrays), structnames=tuple(names), enums=enums, hdr=hdr,
-                                     comments=list(doc['comments']))
-        if raw:
-            par = yanny(p0, raw=True)
+        if job.get('text') is not None:
+            # a hand-written file (e.g. char columns of undeclared length): the history starts from a READ
+            with open(p0, 'wb') as fh:
+                fh.write(job['text'].encode('latin-1'))
+            par = yanny(p0, raw=raw)
+        else:
+            par = write_ndarray_to_yanny(p0, tuple(arrays), structnames=tuple(names), enums=enums, hdr=hdr,
+                                         comments=list(doc['comments']))
+            if raw:
+                par = yanny(p0, raw=True)
     except Exception as e:  # noqa: BLE001
         res['init'] = {'exc': type(e).__name__, 'msg': str(e)[:200]}
         return res
